@@ -4,5 +4,5 @@ INVARIANT Laws
 INVARIANT Once
 CHECK_DEADLOCK FALSE
 CONSTANTS
-  Families = {"q_nest", "q_pairs", "q_leaves", "q_coal1", "q_coal2", "q_calls", "q_modes"}
+  Families = {"q_nest", "q_pairs", "q_leaves", "q_coal1", "q_coal2", "q_calls", "q_modes", "q_ref"}
   Mutant = "none"
